@@ -218,12 +218,68 @@ def lits_of(body, block, facts):
             continue
         out.append(l)
     out = [l for l in out if not (l.kind == "flag" and l.block in explained)]
+    if body.kind == "closure":
+        out += chain_entry_lits(body, facts)
     out += expand_predicates(out, facts, body)
     body._cache[key] = out
     return out
 
 
 _EXPANDING = []
+
+
+def chain_entry_lits(cb, facts):
+    """closure `cb` is applied to the elements of an iterator adaptor chain (`it.filter(p).filter_map(f).for_each(cb)`): what the
+    upstream `filter` / `filter_map` closures guarantee for every element that reaches cb.  The literals stay in the upstream
+    closure's terms (its element is parameter 2, as in cb); its captured variables are replaced by their values in the
+    parent's frame."""
+    c = cb._cache.get("chain_entry")
+    if c is not None:
+        return c
+    cb._cache["chain_entry"] = []
+    from .callgraph import cg_of
+    from .defuse import subst
+    out = []
+    for s in cg_of(facts).callers_of(cb.path):
+        if cb not in s.closures or not s.term.args or s.callee is None:
+            continue
+        if s.callee.name not in ("for_each", "try_for_each", "map", "filter_map", "filter", "for_each_with", "flat_map", "inspect", "any", "all", "find", "find_map", "fold"):
+            continue
+        recv = du_of(s.body).operand_term(s.term.args[0], 40)
+        t = recv
+        hops = 0
+        while hops < 60 and isinstance(t, tuple) and t:
+            hops += 1
+            k = t[0]
+            if k in ("ref", "deref", "cast"):
+                t = t[1]
+            elif k == "var":
+                t = t[3]
+            elif k == "call":
+                n = callee_name(t)
+                if n in ("filter", "filter_map") and len(t[2]) >= 2:
+                    c_ = t[2][1]
+                    h2 = 0
+                    while h2 < 20 and c_[0] in ("ref", "deref", "cast", "var"):
+                        h2 += 1
+                        c_ = c_[3] if c_[0] == "var" else c_[1]
+                    fcb = facts.body(c_[1]) if c_[0] == "closure" else None
+                    if fcb is not None and fcb.path != cb.path:
+                        mapping = {("upvar", i): cap for i, cap in enumerate(c_[2] or [])}
+                        ls = closure_result_lits(fcb, facts, True) if n == "filter" else success_result_lits(fcb, facts)
+                        for pl in ls:
+                            nl = Lit(pl.kind, subst(pl.term, mapping), pl.truth, pl.variants, 0, pl.raw, pl.value, pl.adt)
+                            nl.edge = None
+                            nl.implied = True
+                            nl.derived = pl.derived
+                            out.append(nl)
+                if not t[2]:
+                    break
+                t = t[2][0]
+            else:
+                break
+    cb._cache["chain_entry"] = out
+    return out
 
 
 def capture_term(body, i, facts):
